@@ -54,9 +54,21 @@ fn errno_of(e: &io::Error) -> i32 {
 }
 fn fmt_stat(st: &stat64) -> String {
     format!(
-        "dev={} ino={} mode={} nlink={} uid={} gid={} size={} rdev={}",
-        st.st_dev, st.st_ino, st.st_mode, st.st_nlink, st.st_uid, st.st_gid, st.st_size, st.st_rdev
+        "dev={} ino={} mode={} nlink={} uid={} gid={} size={} rdev={} atime={}.{} mtime={}.{}",
+        st.st_dev, st.st_ino, st.st_mode, st.st_nlink, st.st_uid, st.st_gid, st.st_size, st.st_rdev,
+        st.st_atime, st.st_atime_nsec, st.st_mtime, st.st_mtime_nsec
     )
+}
+fn now_secs() -> u64 {
+    std::time::SystemTime::now().duration_since(std::time::UNIX_EPOCH).map(|d| d.as_secs()).unwrap_or(0)
+}
+// explicit atime/mtime of a setattr request: optional trailing arguments asec ansec msec mnsec
+fn req_times(a: &[&str]) -> (i64, i64, i64, i64) {
+    if a.len() >= 12 {
+        (num(a[8]) as i64, num(a[9]) as i64, num(a[10]) as i64, num(a[11]) as i64)
+    } else {
+        (1_000_000, 0, 2_000_000, 0)
+    }
 }
 fn thread_creds() -> String {
     let euid = unsafe { libc::syscall(libc::SYS_geteuid) };
@@ -286,10 +298,13 @@ where
             st.st_uid = num(a[5]) as u32;
             st.st_gid = num(a[6]) as u32;
             st.st_size = num(a[7]) as i64;
-            st.st_atime = 1_000_000;
-            st.st_mtime = 2_000_000;
+            let (asec, ansec, msec, mnsec) = req_times(a);
+            st.st_atime = asec;
+            st.st_atime_nsec = ansec;
+            st.st_mtime = msec;
+            st.st_mtime_nsec = mnsec;
             match fs.setattr(&root, ino(s, a[1]), st, h, valid) {
-                Ok((st, _)) => format!("errno=0 {}", fmt_stat(&st)),
+                Ok((st, _)) => format!("errno=0 {} now={}", fmt_stat(&st), now_secs()),
                 Err(e) => err_line(&e),
             }
         }
@@ -663,14 +678,14 @@ impl Shadow {
                     if valid & 0x80 != 0 {
                         tvs[0].tv_nsec = libc::UTIME_NOW;
                     } else if valid & 0x10 != 0 {
-                        tvs[0].tv_sec = 1_000_000;
-                        tvs[0].tv_nsec = 0;
+                        tvs[0].tv_sec = req_times(a).0;
+                        tvs[0].tv_nsec = req_times(a).1;
                     }
                     if valid & 0x100 != 0 {
                         tvs[1].tv_nsec = libc::UTIME_NOW;
                     } else if valid & 0x20 != 0 {
-                        tvs[1].tv_sec = 2_000_000;
-                        tvs[1].tv_nsec = 0;
+                        tvs[1].tv_sec = req_times(a).2;
+                        tvs[1].tv_nsec = req_times(a).3;
                     }
                     let r = unsafe {
                         match hfd {
@@ -684,7 +699,7 @@ impl Shadow {
                 }
                 let fd = hfd.unwrap_or(pfd);
                 match fstat_fd(fd) {
-                    Ok(st) => format!("errno=0 {}", fmt_stat(&st)),
+                    Ok(st) => format!("errno=0 {} now={}", fmt_stat(&st), now_secs()),
                     Err(c) => e(c),
                 }
             }
